@@ -138,6 +138,16 @@ package include
 //@   ensures [C11:others_kept] forall q string :: q != path ==> (has(l.cache, q) <==> old(has(l.cache, q)))
 //@   modifies l.cache[*]
 
+// Changing the limits empties the cache: a cached file was admitted under the old limits, and a cache hit does not look
+// at the file again (after the fix; the limits that come back from normalizeLimits are not specified here).
+//@ func (*Loader).SetLimits
+//@   props C11 C19
+//@   requires l != nil && LCacheOK(l)
+//@   ensures [C11:coherent] LCacheOK(l)
+//@   ensures [C11,C19:new_limits_empty_cache] l.limits != old(l.limits) ==> (forall q string :: !has(l.cache, q))
+//@   ensures [C11:same_limits_keep_cache] l.limits == old(l.limits) ==> l.cache == old(l.cache)
+//@   modifies l.cache, l.limits
+
 //@ func (*Loader).ClearCache
 //@   props C11
 //@   requires l != nil
